@@ -11,6 +11,7 @@
             left), and __nega_kv maps every operator the parser can produce to one with the complementary accept set
  RF6-own    every rewrite of __dnf leaves a tree: no node is reachable through two parent slots (symbolic execution of
             the pointer assignments of each branch), because free_dexpr releases every slot
+ RF2-act    parser actions in the generated parser: `!` toggles the negation flag; the scratch atom is cleared as a whole per atom
  RF2-gram   operator precedence lines of the grammar: OR < AND < NOT, %expect 0
  RF11-line  dgrep's proc_line writes a matching line (or, with -v, a non-matching one) exactly once, whole, plus newline
 """
@@ -523,6 +524,68 @@ def check_grammar(P, R):
         R.ob(rule, "scanner spellings %d" % len(spell), True)
 
 
+def check_actions(P, R):
+    """parser actions, read from the generated parser as compiled into dgrep: `!` toggles the node's negation flag (so that a
+    double negation cancels), and the static scratch atom is cleared as a whole before every atom (the bare-value production
+    assigns no operator and relies on it)"""
+    rule = "RF2-act"
+    tu = P.tu("dgrep-dgrep.o")
+    fn = tu.func("yyparse")
+    if fn is None:
+        raise AnalysisBroken("%s: yyparse not found in the dgrep unit" % rule)
+    R.saw(fn)
+    n = 0
+    for x in fn.walk():
+        tgt = None
+        if x.get("k") in ("BinaryOperator", "CompoundAssignOperator") and x.get("op", "").endswith("=") and x.get("op") not in ("==", "!=", "<=", ">="):
+            l = strip(x["c"][0])
+            if l is not None and l.get("k") == "MemberExpr" and l.get("n") == "nega":
+                tgt = x
+        if tgt is None:
+            continue
+        n += 1
+        r = strip(tgt["c"][1])
+        toggle = False
+        if tgt["k"] == "CompoundAssignOperator" and tgt["op"] == "^=" and const_of(r) == 1:
+            toggle = True
+        if tgt["k"] == "BinaryOperator" and r is not None and r.get("k") == "UnaryOperator" and r.get("op") == "!" and \
+                any(y.get("k") == "MemberExpr" and y.get("n") == "nega" for y in walk(r)):
+            toggle = True
+        if toggle:
+            R.ob(rule, "the `!` action toggles the negation flag", True)
+        else:
+            R.finding(rule, fn, "negation action", "the parser action for `!` stores %s into the negation flag instead of toggling it: "
+                      "`!!x` selects the lines that do not match x" % expr_text(r), tgt)
+    if n == 0:
+        raise AnalysisBroken("%s: the action that sets the negation flag was not found in yyparse" % rule)
+    # scratch atom reset
+    ckv = None
+    resets = []
+    for c in fn.calls("memset"):
+        a = call_args(c)
+        d0 = strip(a[0])
+        resets.append((c, d0, a))
+    okr = False
+    bad = None
+    for c, d0, a in resets:
+        if d0 is not None and d0.get("k") == "DeclRefExpr" and const_of(a[1]) == 0:
+            # whole object: size equals the size of what the pointer points to
+            t = tu.types[d0["t"]]
+            base = re.sub(r"\[[^\]]*\]", "", t.get("c", "")).replace("*", "").replace("struct ", "").replace("const ", "").strip()
+            rec = tu.record(base)
+            if rec is not None and const_of(a[2]) == rec["size"]:
+                okr = True
+            else:
+                bad = c
+        elif d0 is not None and d0.get("k") == "UnaryOperator" and d0.get("op") == "&":
+            bad = c
+    if okr and bad is None:
+        R.ob(rule, "the scratch atom is cleared as a whole before each atom", True)
+    else:
+        R.finding(rule, fn, "scratch reset", "the static scratch atom of the parser is not cleared as a whole before every atom: a bare "
+                  "value (no operator of its own) inherits the operator of the atom parsed before it", bad)
+
+
 def check_proc_line(P, R):
     rule = "RF11-line"
     tu = _tu(P)
@@ -586,6 +649,7 @@ def check(P, R, tier):
     check_ops(P, R)
     check_ownership(P, R)
     check_grammar(P, R)
+    check_actions(P, R)
     check_proc_line(P, R)
 
 
